@@ -587,6 +587,26 @@ Section Total.
       + apply (Hk (read_gpos1 F endl)); auto. intros; apply read_gpos1_good; auto.
     - destruct Hs as [O1 L1]; [discriminate|]. apply (good_weaken (length (tl ts))); [lia|]. apply IH; auto. lia.
   Qed.
+
+  Lemma read_nested_good : forall fuel res ts n, toksL ts -> (length ts <= n)%nat -> (n < fuel)%nat ->
+    good n (read_nested endl fuel res ts).
+  Proof.
+    induction fuel as [|f IH]; intros res ts n H Hl Hf; [lia|]. cbn [read_nested].
+    unfold bind at 1. rewrite read_eq.
+    destruct (negb (ityp_eqb (ttyp (peek_tok endl ts)) TInt)) eqn:E.
+    - destruct (unread_peek ts H) as (ts' & Eu & Ok & Len). unfold bind. rewrite Eu. apply good_ret; auto. lia.
+    - assert (X : ttyp (peek_tok endl ts) <> TEOF).
+      { intros X. rewrite X in E. discriminate. }
+      pose proof (peek_not_eof_len ts X) as L1. pose proof (tl_ok0 ts H) as O1.
+      destruct (atoi _); [|gf]. destruct (_ || _); [gf|].
+      apply (good_bind_lt _ _ _ (length (tl ts))); [apply required_lt; auto|]. intros _ ts2 O2 L2.
+      unfold bind at 1. rewrite read_eq.
+      destruct (negb (ityp_eqb (ttyp (peek_tok endl ts2)) TInt)) eqn:E2; [gf|].
+      destruct (atoi _); [|gf]. destruct (_ || _); [gf|].
+      assert (L3 : (length (tl ts2) <= length ts2)%nat) by (destruct ts2; cbn; lia).
+      apply (good_weaken (length (tl ts2))); [lia|].
+      apply IH; [apply tl_ok0; auto|lia|lia].
+  Qed.
 End Total.
 
 (* Parse of any text, over any font without a cmap entry for glyph 65535:
@@ -612,6 +632,20 @@ Proof.
   assert (L : (length ts < S (S (length ts)))%nat) by lia. specialize (G L).
   destruct (parse_loop F (end_line ts) (S (S (length ts))) [] ts) as [[ll ts']|l| | |];
     cbn in G; cbn; auto.
+Qed.
+
+Theorem nested_tokens_total : forall ts (Lok : N -> Prop), toks_ok ts ->
+  Forall (fun t => Lok (tline t)) ts -> Lok (end_line ts) ->
+  match read_nested (end_line ts) (S (S (length ts))) [] ts with
+  | POk _ | PUnmodelled => True | PErr l => Lok l | PPanic | PFuel => False end.
+Proof.
+  intros ts Lok H HL He.
+  assert (HT : toksL Lok ts).
+  { unfold toksL, tokL, toks_ok in *. rewrite Forall_forall in *. intros t Ht. split; [apply H; auto|apply HL; auto]. }
+  assert (H0 : num_glyphs (mkFont [] []) <= 65535) by (cbn; lia).
+  pose proof (read_nested_good (mkFont [] []) (end_line ts) H0 Lok He (S (S (length ts))) [] ts (length ts) HT (le_n _)) as G.
+  assert (L : (length ts < S (S (length ts)))%nat) by lia. specialize (G L).
+  destruct (read_nested (end_line ts) (S (S (length ts))) [] ts) as [[ll ts']|l| | |]; cbn in G; cbn; auto.
 Qed.
 
 (* ---- line numbers of the lexer's items ---- *)
@@ -719,4 +753,16 @@ Theorem parse_total_text : forall U F text, total_font_ok F ->
 Proof.
   intros U F text HF. unfold M_parse. destruct (lex_lines U text) as [A B].
   apply parse_tokens_total; auto. apply lex_toks_ok.
+Qed.
+
+Theorem parse_nested_total_text : forall U text,
+  match M_parse_nested U text with
+  | POk _ | PUnmodelled => True
+  | PErr l => 1 <= l <= 1 + newlines text
+  | PPanic | PFuel => False
+  end.
+Proof.
+  intros U text. unfold M_parse_nested. destruct (lex_lines U text) as [A B].
+  pose proof (nested_tokens_total (M_lex U text) (fun l => 1 <= l <= 1 + newlines text) (lex_toks_ok U text) A B) as G.
+  destruct (read_nested _ _ _ _) as [[r ts']|l| | |]; auto.
 Qed.
